@@ -17,7 +17,8 @@ Scheds  == {"none", "single1970", "singlemin", "two", "three", "uncovered"}
 Faults  == {"", "sheet_missing_end", "sheet_nested", "sheet_repeated", "sheet_data_outside", "sheet_empty_in", "field_unknown_exchange",
             "field_no_timezone", "field_bad_type", "field_zero_amount", "field_non_numeric", "field_asset_mismatch", "field_received_gt_sent",
             "config_missing_section", "config_bad_column", "config_duplicate_column", "config_unknown_section", "config_no_assets",
-            "config_json", "config_not_ini", "input_not_a_spreadsheet", "asset_without_sheet", "overdraft", "overspend", "bad_date_option", "unknown_option", "missing_input_file"}
+            "config_json", "config_not_ini", "config_bom", "input_not_a_spreadsheet", "asset_without_sheet", "option_unknown_asset", "option_asset_wrong_case",
+            "sheet_missing_end_last_asset", "field_unknown_exchange_last_asset", "field_zero_amount_last_asset", "overdraft", "overspend", "bad_date_option", "unknown_option", "missing_input_file"}
 
 \* what the data directory of the pinned product ships (observed again by the harness at run time)
 ShippedOf(c) == CASE c = "us" -> {"en"} [] c = "jp" -> {"en", "kl", "ja"} [] c = "es" -> {"es"} [] c = "ie" -> {"en_IE"} [] OTHER -> {"en"}
